@@ -190,7 +190,7 @@ def reset_clears_everything_unconditionally(ctx):
 MEMO = ("lru_cache", "cache", "cached_property", "memoize", "memoized")
 
 
-@rule("C09.R6", ["C09", "C17", "C01", "C05", "C03", "C11"], min_instances=4, design="3.9")
+@rule("C09.R6", ["C09", "C17", "C01", "C05", "C03", "C11", "C04"], min_instances=4, design="3.9")
 def evaluation_and_decoding_are_stateless(ctx):
     """Evaluating a query writes no state (its verdict is a function of the point alone), nothing in the package memoises results, and every decode builds a fresh Point."""
     # (a) query evaluation writes nothing
@@ -225,7 +225,7 @@ def evaluation_and_decoding_are_stateless(ctx):
             nm = dn.attr if isinstance(dn, ast.Attribute) else (dn.id if isinstance(dn, ast.Name) else "")
             if nm in MEMO:
                 memo.append((f, d))
-    yield Ob("C09.R6", ["C05", "C01", "C03", "C11", "C09"], "package | no memoised function", not memo,
+    yield Ob("C09.R6", ["C05", "C01", "C03", "C11", "C09", "C04"], "package | no memoised function", not memo,
              f"{n_funcs} functions, none decorated with a result cache" if not memo else
              f"{memo[0][0].qual} is decorated with `{norm(memo[0][1])}`: callers share one mutable result object per argument "
              f"(a decoded Point edited by update() is handed out again by the next read)",
@@ -245,7 +245,7 @@ def evaluation_and_decoding_are_stateless(ctx):
                 and not c.args and not c.keywords]
         if not ctor:
             fresh = False
-    yield Ob("C09.R6", ["C05", "C03", "C11", "C01"], f"{de.qual} | every decode builds a new Point", fresh,
+    yield Ob("C09.R6", ["C05", "C03", "C11", "C01", "C04"], f"{de.qual} | every decode builds a new Point", fresh,
              "returns Point()._deserialize_from_list(row)" if fresh else
              "the decoded object does not come from a Point() constructed in this call: reads may share one mutable object",
              de.loc())
